@@ -49,6 +49,7 @@ def Err.render : Err → String
   | .exportZero => "Illegal_to_export_uid_0"
   | .badArg => "*Bad_argument"
   | .policy => "*policy_error"
+  | .simulDest => "*Cannot_destruct_simul_efun_object_while_master_object_exists."
 
 def Res.render : Res → String
   | .int n => toString n
@@ -183,7 +184,19 @@ def Tables.vsAns (t : Tables) (o : Oid) (u : Name) : Ans :=
       | some a => a
       | none => (lookupS t.vs "*:*").getD (.int 1)
 
+/-- `cfg <flag>..` line: which verification master / simul_efun object the case runs under
+    (nobb: no get_bb_uid(); noroot: no get_root_uid(); simul: the simul_efun object /c20/simul is actor `se`) -/
+def applyCfgFlag (c : Cfg) (f : String) : Option Cfg :=
+  if f == "nobb" then some { c with bb := none }
+  else if f == "noroot" then some { c with noRoot := true }
+  else if f == "simul" then some { c with simul := true }
+  else none
+
+def parseCfgFlags (fs : List String) : Option Cfg :=
+  fs.foldl (fun c f => c.bind (applyCfgFlag · f)) (some driveCfg)
+
 structure Parsed where
+  cfg : Cfg := driveCfg
   tab : Tables := {}
   steps : List ((Oid × Op) × Tables) := []
   bad : List String := []
@@ -192,6 +205,11 @@ def parseLine (p : Parsed) (line : String) : Parsed :=
   match toks line with
   | [] => p
   | ["load", "reg", "/c20/reg"] => p
+  | "cfg" :: flags =>
+    -- only as the first line of a case
+    match parseCfgFlags flags with
+    | some c => if p.steps.isEmpty then { p with cfg := c } else { p with bad := line :: p.bad }
+    | none => { p with bad := line :: p.bad }
   | ["script", key, ops] =>
     if ops == "-" then { p with tab := { p.tab with scripts := (key, []) :: p.tab.scripts } }
     else
@@ -242,7 +260,7 @@ def runModel (lines : List String) : List String :=
   let p := parseCase lines
   if !p.bad.isEmpty then p.bad.reverse.map (fun l => s!"bad-line {l}")
   else
-    let trace := events driveCfg (policyOf p.steps) driveFuel (p.steps.map (·.1))
+    let trace := events p.cfg (policyOf p.steps) driveFuel (p.steps.map (·.1))
     -- the real driver is dead after a crash: nothing is printed after the first crashing segment
     let upto := trace.takeWhile (fun r => !r.crash) ++ (trace.dropWhile (fun r => !r.crash)).take 1
     upto.flatMap StepRec.render
@@ -258,7 +276,7 @@ def parseRes (ws : List String) : Option Res :=
   match ws with
   | ["nobj"] => some .nobj
   | ["err", e] =>
-    ([Err.noEuidLoad, .noEuidClone, .exportZero, .badArg, .policy].find? (fun x => x.render == e)).map .err
+    ([Err.noEuidLoad, .noEuidClone, .exportZero, .badArg, .policy, .simulDest].find? (fun x => x.render == e)).map .err
   | [x] =>
     match x.toInt? with
     | some n => some (.int n)
@@ -356,9 +374,13 @@ def parseTrace (lines : List String) : List StepRec × List String :=
   (done.reverse, j.bad.reverse ++ (if j.cur.isSome then ["segment without snapshot"] else []))
 
 def runJudge (body : List String) : List String :=
-  let (_input, impl) := splitJudge body
+  let (input, impl) := splitJudge body
   let (trace, bad) := parseTrace impl
-  let vs := bad.map (fun l => s!"unparsed {l}") ++ judgeEv driveCfg.root driveCfg.bb trace
+  -- the configuration (which master, simul_efun object as actor) is part of the case, not of the trace
+  let cfg := (input.filterMap (fun l => match toks l with
+    | "cfg" :: flags => parseCfgFlags flags
+    | _ => none)).head?.getD driveCfg
+  let vs := bad.map (fun l => s!"unparsed {l}") ++ judgeEv cfg trace
   match vs with
   | [] => ["ok"]
   | vs => vs.map (fun v => s!"bad {v}")
